@@ -637,6 +637,29 @@ def rule_tag_table(fx, col):
                         col.add('TAG-TABLE', '%s|generation increment' % b.fname, k is not None and k > 0 and k % (M + 1) == 0,
                                 'generation advanced by %s' % k, b.loc(bb, i))
     col.floor('TAG-TABLE', 'generation increments', n_inc, 1)
+    # the counter really advances: the incremented value is stored back into the thread's `generation` before it goes out as the
+    # intent — a counter that is read, incremented and NOT stored makes every transaction of every thread carry the same generation,
+    # and a replacement prepared for an earlier transaction is accepted by a later one
+    n_adv = 0
+    for s_ in cx.sites:
+        if s_.cls != 'control' or s_.op != 'swap' or U.int_of(s_.body, s_.arg(1)) is not None:
+            continue
+        b = s_.body
+        incs = {bb for bb, t in b.calls() if U.callee_name(t) in ('wrapping_add', 'checked_add', 'saturating_add', 'overflowing_add')}
+        sets = []
+        for bb, t in b.calls(include_cleanup=False):
+            if U.callee_name(t) in ('set', 'replace') and 'cell::Cell' in t['callee'].get('path', '') and len(t['args']) == 2:
+                r_, f_ = b.ref_path(t['args'][0])
+                ff = [x for x in f_ if x['k'] == 'field']
+                if ff and ff[-1]['adt'] == 'arc_swap::debt::helping::Local' and ff[-1]['name'] == 'generation':
+                    sets.append((bb, t))
+        n_adv += 1
+        pub = {o[1] for o in b.origins(s_.arg(1), binops=True) if o[0] == 'call'} & incs
+        ok = bool(pub) and any(b.dominates(bb, s_.bb) and ({o[1] for o in b.origins(t['args'][1], binops=True) if o[0] == 'call'} & pub) for bb, t in sets)
+        col.add('TAG-TABLE', '%s|generation stored back before it is published' % b.fname, ok,
+                'the value that goes into control is generation.get() + step (%s) and the same value is written to Local.generation first (%d store(s) of the field in this body)'
+                % (sorted(b.loc(x) for x in pub), len(sets)), s_.loc)
+    col.floor('TAG-TABLE', 'intent publications', n_adv, 1)
     ks = set()
     for b in fx.lib.bodies:
         if b.key.startswith('arc_swap::debt::helping'):
@@ -694,7 +717,17 @@ def rule_tag_table(fx, col):
                 # the otherwise arm must not return normally
                 oth = t['otherwise']
                 diverges = not any(b.term(x)['k'] == 'return' for x in b.reach_from(oth, unwind=False, avoid=set(tb for _, tb in t['targets']) - {oth}))
-                col.add('TAG-TABLE', '%s|tag match' % b.fname, vals == sorted({I & M, R, G}),
+                full = vals == sorted({I & M, R, G})
+                if not full and set(vals) == {R, G}:
+                    # the IDLE arm written as an early exit before the match: `if control == IDLE { break }` on the same value
+                    src = b.origins(d[3]['l'])
+                    for (sbb, succ, val) in U.dominating_branches(b, bb, unwind=False):
+                        r_ = U.bool_outcome(b, sbb, val)
+                        if r_ and r_[0] and r_[0][0] == 'rv' and r_[0][3]['k'] == 'binop' and r_[0][3]['op'] in ('Eq', 'Ne'):
+                            rv_, truth = r_[0][3], r_[1]
+                            if ((rv_['op'] == 'Eq') != truth) and any(U.int_of(b, y) == I and b.origins(x) == src for x, y in ((rv_['l'], rv_['r']), (rv_['r'], rv_['l']))):
+                                full = True
+                col.add('TAG-TABLE', '%s|tag match' % b.fname, full,
                         'match on control & TAG_MASK handles %s, table is %s' % (vals, sorted({I & M, R, G})), b.loc(bb))
             elif d and d[0] == 'rv' and d[3]['k'] == 'binop' and d[3]['op'] in ('Eq', 'Ne'):
                 # the comparison form: `control & TAG_MASK == SOME_TAG`
